@@ -85,6 +85,10 @@ def monitor_trace(tr):
     last_epoch = [3, 3]
     delivered_to_peer = set()        # record indices that have been handed to their destination
     parked = [dict(), dict()]        # per receiver: payload -> early (harness-sealed) record that arrived, unread
+    W = tr["cfg"]["w"]
+    accepted = [collections.defaultdict(set), collections.defaultdict(set)]   # per receiver, per epoch: accepted seqs
+    for a in (0, 1):
+        accepted[a][3] = set(tr["cfg"]["pre"][a])
     for k, st in enumerate(tr["steps"]):
         if st["errs"]:
             return "call-error", "step %d: %s" % (k, "; ".join(st["errs"]))
@@ -140,6 +144,23 @@ def monitor_trace(tr):
             if not ok:
                 return "update-before-ack", "step %d: UpdateKeys call %d of %s returned nil without an ACK of its " \
                                             "KeyUpdate arriving (op %s)" % (k, cid, SIDE[a], st["op"])
+        if st["op"] in ("d", "x"):
+            # delivered if it arrives in time: a record whose generation the receiver holds (and has authorised),
+            # not accepted before, ahead of or fewer than W behind the newest accepted number of its epoch
+            r = recs[st["rec"]]
+            acc = accepted[dst][r["epoch"]]
+            newest = max(acc) if acc else 0
+            fresh = r["seq"] not in acc and (r["seq"] > newest or newest - r["seq"] < W)
+            if st["retained"] and fresh:
+                acc.add(r["seq"])
+                if r["kind"] == "app" and (dst, pay_num(r["payload"])) not in [tuple(x) for x in st["read"]]:
+                    return "arrived-not-delivered", "step %d: application record (epoch %d, seq %d) reached %s while " \
+                        "its generation was installed and inside the window (newest %d) but was not delivered" % (
+                            k, r["epoch"], r["seq"], SIDE[dst], newest)
+            for a, p in st["read"]:
+                pr = parked[a].get(p)
+                if pr is not None and not (r["kind"] == "app" and pay_num(r["payload"]) == p):
+                    accepted[a][pr["epoch"]].add(pr["seq"])   # a parked record was released
         if st["op"] == "d":
             delivered_to_peer.add(st["rec"])
     if tr["pending_calls"]:
@@ -189,7 +210,7 @@ def monitor_conc(c):
     seen = set()
     for d in c["delivered"]:
         r = recs[d["rec"]]
-        if r["kind"] == "app" and d["rec"] not in seen:
+        if r["kind"] == "app" and d["rec"] not in seen and d["retained"]:
             seen.add(d["rec"])
             arrived[1 if r["from"] == "client" else 0][pay_num(r["payload"])] += 1
     for a in (0, 1):
@@ -231,21 +252,230 @@ def monitor_conc(c):
     return None
 
 
+def explain_mismatch(tr):
+    """ask Coq for the first differing step and the model's prediction there"""
+    txt = "From Coq Require Import List NArith ZArith String.\nImport ListNotations.\n" + IMPORTS + "\nOpen Scope N_scope.\n"
+    txt += "Definition c : trace_case := %s.\n" % cterm(tr)
+    txt += "Eval vm_compute in (trace_bad c, trace_predict (init (fst c)) (snd c)).\n"
+    ok, out = vlib.coq_run(txt, "c20x_%d" % tr["case"])
+    import re
+    m = re.search(r"=\s*\((\d+),", out)
+    k = int(m.group(1)) - 1 if m else -1
+    return k, out[-1500:]
+
+
+def digest(tr):
+    import hashlib
+    h = hashlib.sha256()
+    for st in tr["steps"]:
+        r = tr["recs"][st["rec"]] if st["rec"] >= 0 else None
+        h.update(repr((st["op"], st["side"], st["req"], (r["from"], r["epoch"], r["seq"], r["kind"]) if r else None,
+                       len(st["sent"]), len(st["read"]), len(st["done"]))).encode())
+    return h.hexdigest()[:16]
+
+
+def nontrivial_trace(tr):
+    dones = sum(len(st["done"]) for st in tr["steps"])
+    delivered = [st["rec"] for st in tr["steps"] if st["op"] == "d"]
+    reordered = any(a > b for a, b in zip(delivered, delivered[1:]))
+    dup = len(set(delivered)) != len(delivered)
+    lost = any(r["dg"] >= 0 and i not in set(delivered) for i, r in enumerate(tr["recs"]))
+    crafted = any(st["op"] == "x" for st in tr["steps"])
+    return dones >= 1 and (reordered or dup or lost or crafted)
+
+
 def run(chk):
     proved = chk.prove()
     out_t = vlib.out_path("c20t")
+    out_c = vlib.out_path("c20c")
     env = {"VERIF_SEED": chk.seed, "VERIF_TIER": chk.tier}
-    rc1, o1 = vlib.go_test(".", "^TestVerifC20Trace$", dict(env, VERIF_OUT=out_t), timeout=1800, tags=["c20"])
+    rc1, o1 = vlib.go_test(".", "^TestVerifC20Trace$", dict(env, VERIF_OUT=out_t), timeout=2400, tags=["c20"])
+    rc2, o2 = vlib.go_test(".", "^TestVerifC20Conc$", dict(env, VERIF_OUT=out_c), timeout=2400, tags=["c20"])
+    out_f = vlib.out_path("c20f")
+    rc3, o3 = vlib.go_test(".", "^TestVerifC20FinalAck$", dict(env, VERIF_OUT=out_f), timeout=600, tags=["c20"])
     traces = vlib.read_jsonl(out_t)
+    concs = vlib.read_jsonl(out_c)
+    finalack = vlib.read_jsonl(out_f)
     vlib.cleanup(out_t)
+    vlib.cleanup(out_c)
+    vlib.cleanup(out_f)
     found_input = False
-    for rc, o, nm in ((rc1, o1, "TestVerifC20Trace"),):
+    site = "post-handshake key update (post_handshake.go / traffic_keys.go / conn.go receive path)"
+    for rc, o, nm in ((rc1, o1, "TestVerifC20Trace"), (rc2, o2, "TestVerifC20Conc"), (rc3, o3, "TestVerifC20FinalAck")):
         if rc != 0:
             kind = vlib.classify_go_failure(o)
             if kind == "panic":
-                chk.finding("post-handshake / record layer", {"monitor": "panic", "test": nm}, "panic in " + nm,
-                            {"test": nm, "output": o[-3000:]})
+                chk.finding(site, {"monitor": "panic", "test": nm}, "panic in " + nm, {"test": nm, "output": o[-3000:]})
                 found_input = True
             else:
                 chk.broken("correspondence harness %s no longer runs against /repo (%s)" % (nm, kind), o)
-    chk.finish(level="proof", rule="wip")
+    rerun = "VERIF_SEED=%s bin/check C20 --tier %s" % (chk.seed, chk.tier)
+
+    # implementation-side monitors: the property's own statements
+    for tr in traces:
+        m = monitor_trace(tr)
+        if m:
+            found_input = True
+            chk.finding(site, {"monitor": m[0], "variant": tr["variant"]}, m[1],
+                        {"how": "DTLS 1.3 client/server in a synctest bubble; `steps` are executed one at a time "
+                                "(uk = UpdateKeys, w = Write, d = hand record `rec` to its destination, x = hand a "
+                                "harness-sealed future-generation record, t = virtual time passes and the side "
+                                "retransmits); `recs` are all emitted records opened with the sender's keys",
+                         "case": {k: tr[k] for k in ("variant", "case", "cfg", "steps", "recs")}, "rerun": rerun})
+            break
+    for c in concs:
+        m = monitor_conc(c)
+        if m:
+            found_input = True
+            chk.finding(site, {"monitor": m[0], "variant": "conc"}, m[1],
+                        {"how": "concurrent leg: %d writer goroutines per side + UpdateKeys loops on both sides, "
+                                "lossy/duplicating/reordering pump (loss %d%% on KeyUpdate/ACK), then healed network"
+                                % (c["writers"], c["loss"]),
+                         "case": {k: c[k] for k in ("case", "writers", "loss", "calls", "epochs", "unreturned")},
+                         "rerun": rerun})
+            break
+
+    # correspondence with the model, evaluated inside Coq
+    ok_model, mout = vlib.coq_make(["theories/Ku/C20Run.vo"])
+    if not ok_model:
+        chk.broken("model Ku/C20Run.v no longer compiles", mout)
+    else:
+        usable = []
+        for tr in traces:
+            why = modelable(tr)
+            if why:
+                chk.finding(site, {"monitor": "unmodelled-output", "variant": tr["variant"]},
+                            "the implementation produced something the model has no counterpart for: " + why,
+                            {"case": {k: tr[k] for k in ("variant", "case", "cfg", "steps", "recs")}, "rerun": rerun},
+                            no_input=not found_input)
+            else:
+                usable.append(tr)
+        terms = [cterm(tr) for tr in usable]
+        bad, err = vlib.coq_mismatches("c20t", IMPORTS, "trace_case", "trace_ok", terms, shard=60)
+        if bad is None:
+            chk.broken("correspondence evaluation (traces) failed in coqc", err)
+        else:
+            for i in bad[:1]:
+                tr = usable[i]
+                k, pred = explain_mismatch(tr)
+                m = monitor_trace(tr)
+                chk.finding(site, {"monitor": "model-mismatch", "variant": tr["variant"]},
+                            "step %d of the run differs from Ku/C20KeyUpdate.v" % k + (": " + m[1] if m else ""),
+                            {"case": {k2: tr[k2] for k2 in ("variant", "case", "cfg", "steps", "recs")},
+                             "first_differing_step": k, "observed": tr["steps"][k] if 0 <= k < len(tr["steps"]) else None,
+                             "model_predicts(sent,read,done,epochs)": pred, "correspondence": "Ku.C20Run.trace_ok",
+                             "rerun": rerun},
+                            no_input=(m is None and not found_input))
+        nsteps = sum(len(tr["steps"]) for tr in usable)
+        nontriv = [tr for tr in usable if nontrivial_trace(tr)]
+        chk.count("trace", nsteps, [digest(tr) for tr in nontriv],
+                  samples=[{"variant": tr["variant"], "case": tr["case"], "steps": len(tr["steps"]),
+                            "final_epochs": tr["steps"][-1]["epochs"] if tr["steps"] else None,
+                            "ops": [(st["op"], st["side"]) for st in tr["steps"][:25]]} for tr in nontriv[-2:]])
+        chk.cov["traces_validated_against_impl"] += len(usable)
+        variants = collections.Counter(tr["variant"] for tr in traces)
+        stats = collections.Counter()
+        for tr in usable:
+            seen = set()
+            for st in tr["steps"]:
+                stats["op_" + st["op"]] += 1
+                stats["updatekeys_returned"] += len(st["done"])
+                if st["op"] == "d":
+                    r = tr["recs"][st["rec"]]
+                    ra = st["epochs"][1 if st["side"] == "client" else 3]
+                    if st["rec"] in seen:
+                        stats["duplicate_deliveries"] += 1
+                    seen.add(st["rec"])
+                    if r["kind"] == "app" and st["read"] and r["epoch"] < ra:
+                        stats["old_epoch_app_delivered_%d_behind" % min(ra - r["epoch"], 4)] += 1
+                    if r["kind"] == "app" and not st["read"]:
+                        stats["app_rejected"] += 1
+                if st["op"] == "x":
+                    stats["early_record_" + ("accepted_now" if st["read"] else "not_accepted_now")] += 1
+            stats["max_epoch_%d" % min(max(tr["steps"][-1]["epochs"]), 9)] += 1
+        chk.leg_info("trace", variants=dict(variants), suites=sorted({tr["cfg"]["suite"] for tr in traces}),
+                     stats=dict(stats), chain_checked=sum(g for tr in traces for g in tr["gens"]))
+    cn = [c for c in concs if len(c["calls"]) >= 2 and c["loss"] > 0]
+    chk.count("conc", sum(len(c["delivered"]) for c in concs),
+              [(c["case"], c["writers"], c["loss"], len(c["recs"])) for c in cn],
+              samples=[{"case": c["case"], "writers": c["writers"], "loss": c["loss"], "records": len(c["recs"]),
+                        "updatekeys_calls": len(c["calls"]), "final_epochs": c["epochs"]} for c in cn[-2:]])
+    chk.leg_info("conc", runs=len(concs), monitor_only=True)
+    # establishment precondition (informational: no clause of C20 is about establishment)
+    for fa in finalack:
+        ok_est = fa["client_handshake"] == "ok" and fa["server_handshake"] == "ok"
+        chk.leg_info("establishment_precondition", informational=True, dropped=fa["dropped"],
+                     client_handshake=fa["client_handshake"], server_handshake=fa["server_handshake"],
+                     server_calls_returned_of_2=fa["server_calls_returned"], virtual_s=fa["virtual_s"],
+                     wire=fa["wire"][:16])
+        if not ok_est:
+            vlib.log("[C20 note] establishment precondition fails when only the server's ACK of the client Finished is "
+                     "lost: client=%r server=%r, %d of 2 later server calls returned in %d virtual s (not a C20 clause)"
+                     % (fa["client_handshake"], fa["server_handshake"], fa["server_calls_returned"], fa["virtual_s"]))
+    if not proved:
+        where, out = getattr(chk, "proof_error", ("?", ""))
+        if not found_input:
+            chk.broken("proof obligation Properties/C20.v no longer checks (%s)" % where, out)
+    chk.finish(
+        level="proof",
+        rule="trace leg: real DTLS 1.3 client+server in a synctest bubble, one operation at a time (UpdateKeys +/- "
+             "RequestPeerUpdate on either side, Write, deliver/duplicate/late-deliver/drop any emitted record, "
+             "virtual time for retransmissions, harness-sealed future-generation records); every step's emitted "
+             "records (epoch, sequence number, content), reads, UpdateKeys returns and the four epochs are compared "
+             "with the model evaluated in Coq; evaluations = compared steps. Non-trivial trace = at least one "
+             "UpdateKeys returned and the network reordered, duplicated, lost or forged-ahead something; distinct by "
+             "digest of the step sequence. conc leg: 1-3 writer goroutines per side racing UpdateKeys loops under "
+             "loss/duplication/holding, then a healed network - monitors only; evaluations = deliveries.",
+        assumptions=["AEAD authenticity (C05): only records the peer emitted are opened - premise [authentic] of the theorems",
+                     "traffic-secret bytes (HKDF-Expand-Label) are C10's; here the successor relation is recomputed "
+                     "independently in the harness (crypto/hmac) and secrets are uninterpreted terms in the model",
+                     "replay detector lives in pion/transport (C06: Rec/Window.v)",
+                     "the trace leg serialises operations with synctest.Wait; goroutine interleavings inside one "
+                     "operation are covered by the monitor-only concurrent leg, not by the model comparison",
+                     "the model starts from an ESTABLISHED connection (both handshakes returned nil, the server's "
+                     "NewSessionTicket flight acknowledged); establishment under loss is not a C20 clause - see leg "
+                     "establishment_precondition in the evidence"])
+
+
+def replay(chk, path):
+    """bin/check C20 --replay <file>: re-execute the recorded step list against /repo (TestVerifC20Replay),
+    then evaluate the monitors and the model comparison on the fresh trace."""
+    import json
+    import os
+    body = json.load(open(path))
+    case = body.get("replay", {}).get("case") or body.get("case") or body
+    if "steps" not in case:
+        print("replay file has no step list (concurrent-leg findings are re-run with: %s)" % body.get("replay", {}).get("rerun"))
+        chk.finish(level="proof", rule="replay: nothing to re-execute")
+    tmp = vlib.out_path("c20r_in")
+    with open(tmp, "w") as f:
+        json.dump(case, f)
+    out_t = vlib.out_path("c20r")
+    rc, o = vlib.go_test(".", "^TestVerifC20Replay$", {"VERIF_OUT": out_t, "VERIF_C20_REPLAY": tmp,
+                                                      "VERIF_SEED": chk.seed, "VERIF_TIER": chk.tier}, tags=["c20"])
+    traces = vlib.read_jsonl(out_t)
+    vlib.cleanup(out_t)
+    vlib.cleanup(tmp)
+    site = "post-handshake key update (post_handshake.go / traffic_keys.go / conn.go receive path)"
+    if rc != 0 or not traces:
+        chk.broken("replay harness failed (%s)" % vlib.classify_go_failure(o), o)
+        chk.finish(level="proof", rule="replay")
+    tr = traces[0]
+    same = [(a["op"], a["sent"], a["read"], a["done"], a["epochs"]) for a in tr["steps"] if a["op"] != "t" or a["sent"]] == \
+           [(a["op"], a["sent"], a["read"], a["done"], a["epochs"]) for a in case["steps"] if a["op"] != "t" or a["sent"]]
+    print("replayed %d steps; observable outputs %s the recording" % (len(tr["steps"]), "equal" if same else "DIFFER from"))
+    m = monitor_trace(tr)
+    if m:
+        chk.finding(site, {"monitor": m[0], "variant": tr["variant"]}, m[1], {"case": tr})
+    ok_model, mout = vlib.coq_make(["theories/Ku/C20Run.vo"])
+    why = modelable(tr)
+    if ok_model and not why:
+        bad, err = vlib.coq_mismatches("c20r", IMPORTS, "trace_case", "trace_ok", [cterm(tr)])
+        if bad:
+            k, pred = explain_mismatch(tr)
+            chk.finding(site, {"monitor": "model-mismatch", "variant": tr["variant"]},
+                        "step %d of the replay differs from Ku/C20KeyUpdate.v" % k,
+                        {"case": tr, "first_differing_step": k, "model_predicts(sent,read,done,epochs)": pred},
+                        no_input=m is None)
+        chk.count("replay", len(tr["steps"]), [digest(tr)] if nontrivial_trace(tr) else [])
+    chk.finish(level="proof", rule="replay of one recorded step list")
